@@ -32,6 +32,9 @@ CONSTANTS
     MaxHist,    \* bound on the number of user-level steps
     MaxCmds,    \* bound on the number of commands among them
     UnlockedBug, \* TRUE: redo-unlocked re-runs its deps instead of its target (pinned defect)
+    MaxCrash,      \* how many kills (SIGKILL of one redo process or of the whole tree) may happen
+    CrashWindow,   \* TRUE: kills may also land between rename(tmp, t) and the commit recording it
+    StampWindow,   \* TRUE: kills may also land between a script's redo-stamp and the recording of its build
     SelfDepPanics, \* TRUE: pinned behaviour, add_dep asserts self.id != src.id (exit 101)
     NameSeq     \* all file names in the order of SQL `order by name` (TLC cannot compare strings)
 
@@ -128,7 +131,7 @@ Init ==
     /\ pool = 0
     /\ gh = [cg |-> [n \in Files |-> 0],
              seen |-> [n \in Plain |-> NeverBuilt],
-             fails |-> {}, src |-> {}, codes |-> {}]
+             fails |-> {}, src |-> {}, codes |-> {}, crashes |-> 0, crashNow |-> FALSE]
 
 Bump(n) == [gh EXCEPT !.cg[n] = @ + 1, !.src = @ \ {n}]
 
@@ -215,7 +218,7 @@ StartBuild(c) ==
                                            !.targs = c.targs, !.tok = 1])
     \* only `redo -jN` creates more than one token; redo-ifchange at top level runs -j1
     /\ pool' = IF c.kind = "redo" THEN c.j - 1 ELSE 0
-    /\ gh' = [gh EXCEPT !.fails = {}, !.codes = {}]
+    /\ gh' = [gh EXCEPT !.fails = {}, !.codes = {}, !.crashNow = FALSE]
     /\ UNCHANGED <<fs, tmp, clock, w, locks, hist>>
 
 EndBuild ==
@@ -224,7 +227,8 @@ EndBuild ==
     /\ procs' = << >>
     /\ cmd' = Idle
     /\ hist' = Append(hist, [a |-> "cmd", kind |-> cmd.kind, targs |-> cmd.targs, keep |-> cmd.keep, j |-> cmd.j,
-                             rc |-> procs[Top].rc, ran |-> ran, codes |-> gh.codes, snap |-> Snapshot])
+                             rc |-> procs[Top].rc, ran |-> ran, codes |-> gh.codes, killed |-> gh.crashNow,
+                             snap |-> Snapshot])
     /\ ran' = << >>
     /\ UNCHANGED <<fs, tmp, clock, w, runid, locks, ncmds, pool, gh>>
 
@@ -303,7 +307,10 @@ Decide(p, t, w1, adv) ==
                             ELSE [adv EXCEPT !.jobs = @ \cup {[JobRec(t, "imm", sf, before, NoPid)
                                                                EXCEPT !.st = "exited", !.rv = rv]}]]
             /\ gh' = IF rv # 0 THEN [gh EXCEPT !.fails = @ \cup {t}, !.seen[t].built = FALSE]
-                     ELSE IF kind = "static" THEN [gh EXCEPT !.seen[t] = NeverBuilt, !.src = @ \cup {t}]   \* now a source
+                     ELSE IF kind = "static" THEN
+                          \* now a source; if no rule exists any more the file is the user's from here on
+                          [gh EXCEPT !.seen[t] = NeverBuilt,
+                                     !.src = IF \A i \in 1..Len(Cands[t]) : ~fs[Cands[t][i]].ex THEN @ \cup {t} ELSE @]
                      ELSE gh
             /\ UNCHANGED <<fs, tmp, clock, runid, locks, cmd, hist, ran, ncmds, pool>>
     IN
@@ -402,12 +409,24 @@ Reap(p, j) ==
     /\ pool' = IF P.tok = 1 THEN pool + 1 ELSE pool
     /\ UNCHANGED <<fs, tmp, clock, w, runid, locks, cmd, hist, ran, ncmds, gh>>
 
+\* builder.rs:528-563: output written to stdout is first copied to <t>.redo.tmp
+NeedsCopy(j) ==
+    RecOutcome(j.before, CurStamp(fs, j.t), j.std, j.file, j.rv).op = "rename" /\ j.std /\ ~j.file
+
+RecCopy(p, j) ==
+    LET P == procs[p] IN
+    /\ P.kind = "redo" /\ j \in P.jobs /\ j.k = "self" /\ j.st = "exited" /\ NeedsCopy(j)
+    /\ tmp' = tmp \cup {j.t}
+    /\ procs' = [procs EXCEPT ![p].jobs = (@ \ {j}) \cup {[j EXCEPT !.st = "copied"]}]
+    /\ UNCHANGED <<fs, clock, w, runid, locks, cmd, hist, ran, ncmds, pool, gh>>
+
 \* builder.rs:499-584: the file operation of record_new_state
 RecFs(p, j) ==
     LET P == procs[p]
         out == RecOutcome(j.before, CurStamp(fs, j.t), j.std, j.file, j.rv)
     IN
-    /\ P.kind = "redo" /\ j \in P.jobs /\ j.k = "self" /\ j.st = "exited"
+    /\ P.kind = "redo" /\ j \in P.jobs /\ j.k = "self"
+    /\ (j.st = "exited" /\ ~NeedsCopy(j)) \/ j.st = "copied"
     /\ IF out.op = "rename" THEN
           /\ fs' = [fs EXCEPT ![j.t] = [ex |-> TRUE, val |-> j.val, ver |-> clock + 1, own |-> "redo"]]
           /\ clock' = clock + 1
@@ -586,11 +605,53 @@ UnlockedStep(u) ==
 \* a script whose redo parent is gone (abandoned by an error exit) is reaped by init
 OrphanReap(s) ==
     /\ procs[s].kind \in {"script", "unlocked"} /\ procs[s].pc = "done"
-    /\ ~Alive(procs[s].par)
+    /\ IF Alive(procs[s].par) THEN procs[procs[s].par].pc = "done" ELSE TRUE
     /\ procs' = Kill(procs, {s})
     /\ UNCHANGED <<fs, tmp, clock, w, runid, locks, cmd, hist, ran, ncmds, pool, gh>>
 
 (***************************************************************************)
+(***************************************************************************)
+(* Kills (C10).  A killed process leaves everything committed so far, its   *)
+(* locks are released by the kernel, uncommitted work is lost.             *)
+(***************************************************************************)
+InWindow == \E p \in DOMAIN procs : \E j \in procs[p].jobs : j.st = "fs"
+InStampWindow ==
+    \/ \E p \in DOMAIN procs : procs[p].kind = "script" /\ procs[p].stamped
+    \/ \E p \in DOMAIN procs : \E j \in procs[p].jobs : j.k = "self" /\ j.stamped
+CanCrash == cmd.kind \in {"ifchange", "redo"} /\ gh.crashes < MaxCrash /\ DOMAIN procs # {}
+            /\ (CrashWindow \/ ~InWindow) /\ (StampWindow \/ ~InStampWindow)
+
+\* SIGKILL of the whole process tree
+CrashTree ==
+    /\ CanCrash
+    /\ ~(DOMAIN procs = {Top} /\ procs[Top].pc = "done")
+    /\ procs' = << >>
+    /\ locks' = [n \in Plain |-> NoPid]
+    /\ cmd' = Idle
+    /\ ran' = << >>
+    /\ pool' = 0
+    /\ gh' = [gh EXCEPT !.crashes = @ + 1, !.crashNow = TRUE]
+    /\ hist' = Append(hist, [a |-> "crash", kind |-> cmd.kind, targs |-> cmd.targs, keep |-> cmd.keep,
+                             j |-> cmd.j, who |-> "tree", snap |-> Snapshot])
+    /\ UNCHANGED <<fs, tmp, clock, w, runid, ncmds>>
+
+\* an abandoned script that will still run redo-stamp reaches the stamp window later
+WillStamp(p) ==
+    \E j \in procs[p].jobs : j.k = "self" /\ j.st = "run" /\ Alive(j.pid) /\
+        LET S == procs[j.pid] IN
+        \E i \in S.opi..Len(Rules[S.df][S.dv][S.t]) : Rules[S.df][S.dv][S.t][i].op = "stamp"
+
+\* SIGKILL of one redo process: like an error return, its jobs are abandoned and keep
+\* running; a script waiting for it sees status 137
+CrashOne(p) ==
+    /\ CanCrash
+    /\ StampWindow \/ ~WillStamp(p)
+    /\ procs[p].kind = "redo" /\ procs[p].pc # "done"
+    /\ procs' = [procs EXCEPT ![p].pc = "done", ![p].rc = IF p = Top THEN -9 ELSE 137, ![p].jobs = {}]
+    /\ locks' = ReleaseAll(locks, p)
+    /\ gh' = [gh EXCEPT !.crashes = @ + 1, !.crashNow = TRUE]
+    /\ UNCHANGED <<fs, tmp, clock, w, runid, cmd, hist, ran, ncmds, pool>>
+
 \* one named action per atomic unit, so that TLC's coverage reports each
 DeclareA    == \E p \in DOMAIN procs : Declare(p)
 ConsiderA   == \E p \in DOMAIN procs : Consider(p)
@@ -599,6 +660,7 @@ FinishA     == \E p \in DOMAIN procs : Finish(p)
 AcquireA    == \E p \in DOMAIN procs : Acquire(p)
 ReleaseA    == \E p \in DOMAIN procs : Release(p)
 ReapA       == \E p \in DOMAIN procs : \E j \in procs[p].jobs : Reap(p, j)
+RecCopyA    == \E p \in DOMAIN procs : \E j \in procs[p].jobs : RecCopy(p, j)
 RecFsA      == \E p \in DOMAIN procs : \E j \in procs[p].jobs : RecFs(p, j)
 RecCommitA  == \E p \in DOMAIN procs : \E j \in procs[p].jobs : RecCommit(p, j)
 UnlDoneA    == \E p \in DOMAIN procs : \E j \in procs[p].jobs : UnlDone(p, j)
@@ -609,7 +671,7 @@ OrphanReapA == \E p \in DOMAIN procs : OrphanReap(p)
 
 ProcStep ==
     \/ DeclareA \/ ConsiderA \/ Pass2A \/ FinishA \/ AcquireA \/ ReleaseA
-    \/ ReapA \/ RecFsA \/ RecCommitA \/ UnlDoneA
+    \/ ReapA \/ RecCopyA \/ RecFsA \/ RecCommitA \/ UnlDoneA
     \/ ScriptStepA \/ ScriptResumeA \/ UnlockedStepA \/ OrphanReapA
 
 UserStep ==
@@ -620,9 +682,10 @@ UserStep ==
 
 Next ==
     \/ DeclareA \/ ConsiderA \/ Pass2A \/ FinishA \/ AcquireA \/ ReleaseA
-    \/ ReapA \/ RecFsA \/ RecCommitA \/ UnlDoneA
+    \/ ReapA \/ RecCopyA \/ RecFsA \/ RecCommitA \/ UnlDoneA
     \/ ScriptStepA \/ ScriptResumeA \/ UnlockedStepA \/ OrphanReapA
     \/ EndBuild \/ UserStep
+    \/ CrashTree \/ \E p \in DOMAIN procs : CrashOne(p)
 
 Spec == Init /\ [][Next]_vars
 
